@@ -208,7 +208,7 @@ SIMPLE_TYPES = ['key', 'unit', 'signature', 'operation', 'int', 'nat', 'string',
 UNARY_TYPES = ['option', 'list', 'set', 'contract', 'ticket']
 BINARY_TYPES = ['or', 'map', 'big_map', 'lambda']
 SIZED_TYPES = ['sapling_state', 'sapling_transaction', 'sapling_transaction_deprecated']
-# (constant, Lambda_rec, Ticket applications in argument position: defect #44, fixed by 107d189, still generated)
+# (constant, Lambda_rec, Ticket applications in argument position: defect #44, fixed by d644aa7, still generated)
 
 ANNOT_BODY = '_.0123456789abcdefghijklmnopqrstuvwxyzABCDEFGHIJKLMNOPQRSTUVWXYZ'
 
